@@ -19,3 +19,21 @@ int sim_peek_page(const void* p, uintptr_t keys[2], void** area_start, size_t* a
   return 0;
 #endif
 }
+
+/* Latent undersized small allocation: a request size (bytes) whose entry in the heap's direct small-page table points at a page that has a
+   free block but whose blocks are smaller than that entry's size -- the very next mi_heap_malloc of that size would hand out an undersized
+   block. Read-only; the harness then performs that allocation and judges it with its ordinary oracle (nothing is reported from here). */
+size_t sim_peek_stale_direct(const mi_heap_t* heap) {
+  if (heap == NULL || heap == &_mi_heap_empty) return 0;
+  for (size_t w = 1; w < MI_PAGES_DIRECT; w++) {
+    const mi_page_t* page = heap->pages_free_direct[w];
+    if (page == NULL || page == &_mi_page_empty || page->free == NULL) continue;
+    if (page->block_size < w * sizeof(void*)) {
+      const size_t bytes = w * sizeof(void*);
+      if (bytes <= MI_PADDING_SIZE) continue;
+      const size_t req = bytes - MI_PADDING_SIZE;
+      if (req <= MI_SMALL_SIZE_MAX) return req;
+    }
+  }
+  return 0;
+}
